@@ -74,7 +74,24 @@ def is_strish(e: ast.expr, env: dict[str, list]) -> bool:
     return False
 
 
+def coalesce(segs: list) -> list:
+    """Adjacent literal pieces are one literal (how the text was split over f-strings / concatenations is immaterial)."""
+    out: list = []
+    for s in segs:
+        if isinstance(s, Lit) and out and isinstance(out[-1], Lit):
+            out[-1] = Lit(out[-1].text + s.text)
+        elif isinstance(s, Lit) and not s.text:
+            continue
+        else:
+            out.append(s)
+    return out
+
+
 def eval_str(e: ast.expr, env: dict[str, list], alias: dict[str, ast.expr]) -> list:
+    return coalesce(_eval_str(e, env, alias))
+
+
+def _eval_str(e: ast.expr, env: dict[str, list], alias: dict[str, ast.expr]) -> list:
     if isinstance(e, ast.Constant) and isinstance(e.value, str):
         return [Lit(e.value)] if e.value else []
     if isinstance(e, ast.Name) and e.id in env:
